@@ -752,8 +752,12 @@ func c17Run(ctx *rt.Ctx) []*rt.Violation {
 		vs = append(vs, o.vs...)
 	}
 	vs = append(vs, rt.Collect(ctx, <-done, nil)...)
-	ctx.Cov.Note("sequential", fmt.Sprintf("BFS over histories of {Open(dsn) for 2 files x 2 option strings, Query, Prepare+Stmt.Query, two overlapping Queries, Close} through database/sql with the registered driver, <=3 live handles, pool size in {unlimited,1}, depth %d, states merged on (handle pool stats, driver connection-cache dump)", depth))
-	ctx.Cov.Note("concurrent", fmt.Sprintf("%v: threads each doing driver.Open -> QueryContext -> Close on one file (what database/sql does on concurrent first use of a fresh handle), preemption-bounded DFS, file-lock waits are scheduling points, race detector live", concs))
+	ctx.Cov.Note("sequential", fmt.Sprintf("BFS over histories of {Open(dsn) for 2 files x 2 option strings, Query, Prepare+Stmt.Query, two overlapping Queries, Close} through database/sql with the registered driver, <=3 live handles, pool size in {unlimited,1}, depth %d, states merged on (handle pool stats, generic dump of all driver fields), each level expanded by parallel worker processes; file 1 is addressed through a non-canonical path spelling; plus every history to depth 5 over the reduced alphabet {3 DSNs, query, close, <=2 handles} WITHOUT state merging (state kept outside the driver object cannot hide there)", depth))
+	var cdesc []string
+	for _, c := range concs {
+		cdesc = append(cdesc, fmt.Sprintf("%d threads%s%s%s: <=%d preemptions, %d shard(s)", c.p.Threads, map[bool]string{true: " +reopen"}[c.p.Mixed], map[bool]string{true: " +different arguments"}[c.p.Args], map[bool]string{true: " +LRU option"}[c.p.LRU], c.bound, c.shards))
+	}
+	ctx.Cov.Note("concurrent", fmt.Sprintf("%v: threads each doing driver.Open -> QueryContext -> Close on one file (what database/sql does on concurrent first use of a fresh handle), preemption-bounded DFS, file-lock waits are scheduling points, race detector live", cdesc))
 	ctx.Cov.Note("rule", "sequential: every transition replayed on fresh file copies, checks rows, no panic, no lock wait (a wait in a single-threaded history is a hang), file released after last Close; concurrent: no deadlock/panic/race, rows correct, file free at the end")
 	ctx.Assumef("a wait for bbolt's file lock in a single-goroutine history is reported as a hang (nobody else can release it); GC is disabled during replays so that a finalizer cannot release a leaked lock")
 	ctx.Assumef("16 goroutines per handle are not enumerable; 2-3 threads with bounded preemptions are")
